@@ -38,6 +38,9 @@ type DInput struct {
 	New       DRS   `json:"new"`
 	Olds      []DRS `json:"olds"`
 	NewOldest bool  `json:"new_oldest,omitempty"`
+	// status.availableReplicas a previous sync left behind when it no longer matches the ReplicaSets (pods failed or became
+	// available since); not an input of the model: the controller counts the ReplicaSets it sees
+	StaleAvail *int `json:"stale_avail,omitempty"`
 }
 type DObs struct {
 	Panic string `json:"panic,omitempty"`
@@ -113,6 +116,46 @@ func (deployctlEngine) Gen(r *rand.Rand, idx int, tier string) any {
 		}
 		in.Olds = append(in.Olds, o)
 	}
+	// focused mode: several old ReplicaSets with unavailable pods, no surge, a generous maxUnavailable and a partition that
+	// reserves most of the old pods: the clean-up budget (and then the availability floor) is what binds
+	if idx%4 == 1 {
+		n = pick(r, 10, 12, 20)
+		in.N = n
+		in.Surge, in.Unavail = mk(Int(0)), mk(pick(r, Pct(50), Pct(100), Int(n/2), Int(2)))
+		ns := r.Intn(4)
+		in.New = DRS{Spec: ns, Avail: ns - r.Intn(ns+1)/2}
+		in.Partition = Int(ns + 1 + r.Intn(4))
+		if chance(r, 30) {
+			in.Partition = Pct(10 * (1 + r.Intn(6)))
+		}
+		in.NewOldest = chance(r, 15)
+		k := 2 + r.Intn(3)
+		remain := n - ns + r.Intn(2)
+		in.Olds = nil
+		for i := 0; i < k; i++ {
+			s := remain
+			if i < k-1 {
+				s = 1 + r.Intn(maxInt(remain/2, 1))
+			}
+			remain -= s
+			if remain < 0 {
+				remain = 0
+			}
+			o := DRS{Spec: s, Avail: s}
+			if chance(r, 75) && s > 0 {
+				o.Avail = s - 1 - r.Intn(s)
+			}
+			in.Olds = append(in.Olds, o)
+		}
+	}
+	if chance(r, 20) {
+		total := in.New.Avail
+		for _, o := range in.Olds {
+			total += o.Avail
+		}
+		sa := maxInt(total+pick(r, -3, -1, 1, 2, 4), 0)
+		in.StaleAvail = &sa
+	}
 	return in
 }
 
@@ -148,6 +191,9 @@ func (deployctlEngine) Run(inAny any) (res any) {
 	for _, o := range in.Olds {
 		total += o.Spec
 		availTotal += o.Avail
+	}
+	if in.StaleAvail != nil {
+		availTotal = *in.StaleAvail
 	}
 	d.Status = apps.DeploymentStatus{ObservedGeneration: 2, Replicas: int32(total), UpdatedReplicas: int32(in.New.Spec), AvailableReplicas: int32(availTotal), ReadyReplicas: int32(availTotal)}
 	tr := true
